@@ -727,10 +727,15 @@ void macho_parse_fat_file(
   yr_set_integer(yr_be32toh(header->magic), object, "fat_magic");
 
   uint32_t count = yr_be32toh(header->nfat_arch);
-  yr_set_integer(count, object, "nfat_arch");
 
+  // nfat_arch is set only when the whole fat_arch table fits in the data.
+  // Functions like file_index_for_arch() and entry_point_for_arch() iterate
+  // up to nfat_arch, a bogus count (0xFFFFFFFF in a 11-byte file) kept them
+  // spinning for minutes without honouring the scan timeout.
   if (size < sizeof(yr_fat_header_t) + count * fat_arch_sz)
     return;
+
+  yr_set_integer(count, object, "nfat_arch");
 
   yr_fat_arch_64_t arch;
 
